@@ -407,6 +407,11 @@ func (Encoder) AppendObjectData(dst []byte, o []byte) []byte {
 	// 2. new content starts with '{' - which should be replaced with ','
 	//    to separate with existing content OR
 	// 3. existing content has already other fields
+	//
+	// An object holding no field adds nothing, not even a separator.
+	if len(o) == 0 || (len(o) == 1 && o[0] == '{') {
+		return dst
+	}
 	if o[0] == '{' {
 		if len(dst) > 1 {
 			dst = append(dst, ',')
